@@ -2,7 +2,7 @@
 from .. import roles
 from ..callgraph import CallGraph
 from ..cfg import DefIndex, dominators, natural_loops, reachable
-from ..facts import KIND, callee, callee_def, place_fields
+from ..facts import KIND, callee, callee_def, const_int, place_fields
 from ..rules import cover
 from ..symex import PathLimit, SymEx, show
 
@@ -285,6 +285,71 @@ def rule_lcs(ck, facts):
                 ck.ok(R, "recurrence|%s" % name, {"branch": name, "predecessors": sorted(map(str, got[0]))})
             else:
                 ck.bad(R, "recurrence|%s" % name, "LCS table recurrence (%s branch) reads %s, expected %s (offsets relative to the written cell; True = plus score)" % (name, [sorted(map(str, g)) for g in got], sorted(map(str, want))), f.where())
+    # ---- table dimensions vs. fill ranges: the table has len+1 rows/columns and the backtrack starts at [len][len],
+    #      so each fill loop must run 1..=len (an exclusive 1..len leaves the last row/column at its initial 0)
+    di = DefIndex(f)
+    lens = {}
+    for b, t in f.calls():
+        if (callee(t) or "").split("::")[-1] == "len" and t[6] is not None and not t[6][1]:
+            lens[t[6][0]] = t
+
+    def len_local(op):
+        for _ in range(6):
+            if op[0] not in ("cp", "mv") or op[1][1]:
+                return None
+            if op[1][0] in lens:
+                return op[1][0]
+            r = di.resolve(op)
+            if r[0] == "call" and r[1][6] is not None and r[1][6][0] in lens:
+                return r[1][6][0]
+            if r[0] == "rv" and r[1][5][0] == "use":
+                op = r[1][5][1]
+                continue
+            # a user variable assigned once from the len() temp
+            ds = di.defs.get(op[1][0], [])
+            if len(ds) == 1 and ds[0][1] is not None and ds[0][2][5][0] == "use":
+                op = ds[0][2][5][1]
+                continue
+            return None
+        return None
+
+    dims = set()
+    for b, t in f.calls():
+        if (callee(t) or "").endswith("from_elem") and len(t[5]) >= 2:
+            r = di.resolve(t[5][1])
+            if r[0] == "rv" and r[1][5][0] == "bin" and r[1][5][1] in ("add", "add_ov"):
+                for o in (r[1][5][2], r[1][5][3]):
+                    l = len_local(o)
+                    if l is not None:
+                        dims.add(l)
+            elif r[0] == "place" and r[1][1] and r[1][1][-1][0] == "f":
+                r2 = di.resolve(["cp", [r[1][0], []]])
+                if r2[0] == "rv" and r2[1][5][0] == "bin" and r2[1][5][1] in ("add", "add_ov"):
+                    for o in (r2[1][5][2], r2[1][5][3]):
+                        l = len_local(o)
+                        if l is not None:
+                            dims.add(l)
+    ck.require(R, len(dims) == 2, "anchor|table-dims", "the DP table is not allocated as (len+1) x (len+1) from two slice lengths (found %d dimension lengths)" % len(dims))
+    ranges = []
+    for b, t in f.calls():
+        c = callee(t) or ""
+        if c.endswith("RangeInclusive::<Idx>::new") or (c.split("::")[-1] == "new" and "RangeInclusive" in c):
+            l = len_local(t[5][1]) if len(t[5]) == 2 else None
+            if l in dims:
+                ranges.append((l, "inclusive", const_int(t[5][0]), t))
+    for b, st in f.all_stmts():
+        if st[KIND] == "a" and st[5][0] == "agg" and st[5][1][0] == "adt" and st[5][1][1].endswith("ops::Range") and len(st[5][2]) == 2:
+            l = len_local(st[5][2][1])
+            if l in dims:
+                ranges.append((l, "exclusive", const_int(st[5][2][0]), st))
+    for l in sorted(dims):
+        mine = [r for r in ranges if r[0] == l]
+        name = "dim%d" % (sorted(dims).index(l))
+        if len(mine) == 1 and mine[0][1] == "inclusive" and mine[0][2] == 1:
+            ck.ok(R, "fill-range|%s" % name, {"range": "1..=len", "table": "len+1"})
+        else:
+            desc = ["%s%s" % (("%s.." % r[2]), "=len" if r[1] == "inclusive" else "len") for r in mine]
+            ck.bad(R, "fill-range|%s" % name, "the DP table has len+1 entries in this dimension and the backtrack starts at index len, but the fill loop(s) over it run %s (expected exactly one loop 1..=len): the last row/column keeps its initial 0, so a deletion/insertion at the tail makes the backtrack mis-match the preceding elements (their state is not carried over)" % (desc or "over no range of that length"), f.where(mine[0][3]) if mine else f.where())
     # ---- the backtrack loop: the loop that constructs DiffResult values
     sites = constructions([f], DIFFRES)
     bt = None
